@@ -37,12 +37,13 @@ type Violation struct {
 
 type Run struct {
 	deadline time.Time
-	PropID string
-	Seed   int64
-	Tier   string
-	Rng    *rand.Rand
-	P      Prop
+	PropID   string
+	Seed     int64
+	Tier     string
+	Rng      *rand.Rand
+	P        Prop
 
+	cur      string // file holding the op being executed
 	w        *bufio.Writer
 	f        *os.File
 	evals    int
@@ -63,7 +64,7 @@ func NewRun(id string, seed int64, tier, outDir string, p Prop) (*Run, error) {
 		return nil, err
 	}
 	r := &Run{PropID: id, Seed: seed, Tier: tier, Rng: rand.New(rand.NewSource(seed)), P: p,
-		w: bufio.NewWriterSize(f, 1<<20), f: f, distinct: map[uint64]struct{}{}, hist: map[string]int{}}
+		w: bufio.NewWriterSize(f, 1<<20), f: f, distinct: map[uint64]struct{}{}, hist: map[string]int{}, cur: filepath.Join(outDir, "current.op")}
 	if n, err := strconv.Atoi(os.Getenv("VERIF_MAXSEC")); err == nil && n > 0 {
 		r.deadline = time.Now().Add(time.Duration(n) * time.Second)
 	}
@@ -89,6 +90,10 @@ func (r *Run) Do(op string, nontrivial bool, tags ...string) string {
 		// VERIF_MAXSEC: a bounded search run; what was generated so far is what gets checked
 		r.hist["skipped-after-deadline"]++
 		return ""
+	}
+	// the op in hand is on disk before it runs: if it takes the whole process down, the check knows which one it was
+	if r.cur != "" {
+		os.WriteFile(r.cur, []byte(op), 0o644)
 	}
 	out := r.P.Exec(op)
 	fmt.Fprintf(r.w, "%s => %s\n", op, out)
@@ -124,6 +129,9 @@ func (r *Run) Note(s string) { r.notes = append(r.notes, s) }
 func (r *Run) Exhaustive() { r.exhaust = true }
 
 func (r *Run) Close(outDir string) error {
+	if r.cur != "" {
+		os.Remove(r.cur)
+	}
 	if err := r.w.Flush(); err != nil {
 		return err
 	}
